@@ -64,6 +64,9 @@ claimed = {
  "C01": dict(cat="model_checking", tech="bounded exhaustive enumeration of the classifier x function x ack x destination x peer matrix in two prior registry states on the real code under the controlled scheduler, reference response rules",
              text="For every feature type the factory accepts (local server and client feature of each, all functions readable, list functions writable) and two prior states (no bindings; A bound and subscribed, B subscribed): every datagram of {read,reply,notify,write,call,result} x every registered function x ackRequest absent/true x destination {server, client, non-existent feature, non-existent entity} x peer {A,B}, plus the NodeManagement message set, is delivered and the complete outbound trace of all connections is judged: exactly the prescribed reply/result, on the sender's connection, referencing the request, addressed to its source, named after the addressed local feature; reply payload equals the current data.",
              ref="4 C01"),
+ "C17": dict(cat="model_checking", tech="stateless schedule exploration of every pair of 21 API-level operations (and six triples) on the real code in the race-enabled build: the race detector judges every explored schedule (scheduler hand-offs hidden with runtime.RaceDisable), deadlock detection by the scheduler",
+             text="21 API-level operations (inbound read/write/notify/subscribe/bind/discovery on two connections, SetData, UpdateData, use cases, AddEntity/RemoveEntity, RequestRemoteData, SubscribeToRemote, approval verdict, heartbeat stop/start, connection removal, notify-cache lookup, readers); every unordered pair that can run concurrently (two messages of one connection cannot) and six triples run as threads on a prepared world; every interleaving up to the preemption bound is executed in the race build, followed by timer expiry; oracle: no race report with an access in spine-go, no deadlock, no panic, every thread finishes.",
+             ref="4 C17"),
 }
 checks = []
 for pid, c in sorted(claimed.items()):
